@@ -71,8 +71,8 @@ func decodePath(pre string) []int {
 }
 
 // sliceArr returns the backing array of s in the given heap
-func sliceArr(heap map[*Object]Value, s SliceVal) *Agg {
-	v := heap[s.obj]
+func sliceArr(heap *Heap, s SliceVal) *Agg {
+	v, _ := heap.get(s.obj)
 	if s.pre != "" {
 		v = loadPath(v, decodePath(s.pre))
 	}
@@ -84,12 +84,13 @@ func sliceArr(heap map[*Object]Value, s SliceVal) *Agg {
 }
 
 // sliceSetArr replaces the backing array of s
-func sliceSetArr(heap map[*Object]Value, s SliceVal, a *Agg) {
+func sliceSetArr(heap *Heap, s SliceVal, a *Agg) {
 	if s.pre == "" {
-		heap[s.obj] = a
+		heap.set(s.obj, a)
 		return
 	}
-	heap[s.obj] = storePath(heap[s.obj], decodePath(s.pre), a)
+	cur, _ := heap.get(s.obj)
+	heap.set(s.obj, storePath(cur, decodePath(s.pre), a))
 }
 
 type IfaceVal struct {
